@@ -47,11 +47,24 @@ func cmdRun(args []string) {
 	fs.BoolVar(&cfg.Lockset, "lockset", false, "lockset race check")
 	fs.IntVar(&cfg.MaxPaths, "maxpaths", 0, "path limit")
 	fs.IntVar(&cfg.TimeoutS, "timeout", 0, "time limit in seconds")
+	params := fs.String("params", "", "harness parameters, e.g. L=3,H=2")
 	workers := fs.Int("workers", runtime.NumCPU(), "parallel workers")
 	solver := fs.String("solver", "z3", "z3 | z3-new | cvc5")
 	qto := fs.Int("qtimeout", 60000, "per-query timeout ms")
 	jsonOut := fs.Bool("json", false, "print JSON")
 	fs.Parse(args)
+	if *params != "" {
+		cfg.Params = map[string]int{}
+		for _, kv := range strings.Split(*params, ",") {
+			var k string
+			var v int
+			if i := strings.Index(kv, "="); i > 0 {
+				k = kv[:i]
+				fmt.Sscan(kv[i+1:], &v)
+				cfg.Params[k] = v
+			}
+		}
+	}
 	P, err := LoadProgram([]string{cfg.Pkg})
 	if err != nil {
 		fmt.Fprintln(os.Stderr, "load:", err)
